@@ -73,9 +73,34 @@ class C18Oracle(worldprop.Oracle):
                                       x=repr(x))
                 # an absent identifier
                 cc = copy.deepcopy(c)
-                got = cc.get_record(QualifiedName(Namespace("zq9", "http://absent.test/"), "nothing"))
+                try:
+                    got = cc.get_record(QualifiedName(Namespace("zq9", "http://absent.test/"), "nothing"))
+                except Exception as e:
+                    got = None
+                    self.fail(idx, "get_record raised", container=cname, spelling="absent", exc=repr(e))
                 if got:
                     self.fail(idx, "get_record returned records for an absent identifier", container=cname)
+                # identifiers of the sibling containers that this container does not hold
+                own = set(uris)
+                seen_sib = []
+                for _, o in conts:
+                    if o is c:
+                        continue
+                    for r in o.get_records():
+                        if r.identifier is not None and r.identifier.uri not in own and r.identifier not in seen_sib:
+                            seen_sib.append(r.identifier)
+                for q in seen_sib[:5]:
+                    for form, x in (("QualifiedName", QualifiedName(Namespace(q.namespace.prefix, q.namespace.uri), q.localpart)),
+                                    ("full-URI", q.uri)):
+                        cc = copy.deepcopy(c)
+                        try:
+                            got = cc.get_record(x)
+                        except Exception as e:
+                            self.fail(idx, "get_record raised", container=cname, spelling=form, exc=repr(e))
+                            continue
+                        if got:
+                            self.fail(idx, "get_record returned records of another container", container=cname, spelling=form,
+                                      identifier=q.uri, got=len(got))
                 # typed listing
                 for cn, cls in I.CLASS_BY_NAME.items():
                     got = list(c.get_records(cls))
@@ -107,7 +132,8 @@ def run(tier, seed, log, model_runs=True, enlarged=False):
                          ops_range_quick=(6, 20), ops_range_thorough=(8, 40),
                          rule_text="API programs (profiles merge/mixed/records) covering every insertion path; after every "
                                    "mutating call each container of a deep copy of the world is probed: get_record in every "
-                                   "spelling that denotes the identifier, an absent identifier, get_records for every class "
+                                   "spelling that denotes the identifier, an absent identifier, identifiers held only by sibling containers "
+                                   "(the enclosing document, other bundles), get_records for every class "
                                    "and abstract base, records-is-a-copy; non-trivial = >=3 record-inserting calls",
                          theorem_note="C18_* over World.add_rec_to / Interp.step")
 
